@@ -332,9 +332,14 @@ class C15World(World):
         src = self.inc[-1]
         inits = [bool(m.initialized) for m in src.modules() if type(m).__name__ == "ActNorm"]
         self.save_bytes("ckpt", src.state_dict())
-        fresh = zoo.build(self.cfg["spec"], int(op["seed"])).obj
-        if self.dtype64:
-            fresh.double()
+        try:
+            fresh = zoo.build(self.cfg["spec"], int(op["seed"])).obj
+            if self.dtype64:
+                fresh.double()
+        except Exception as e:   # noqa: BLE001 - a constructor that refuses under this seed: no restart
+            self.probes["restart_skipped_constructor_refused"] += 1
+            log.add("restart_skipped", type(e).__name__)
+            return
         if _sd(fresh) != _sd(src):
             self.differ = True
             self.probes["fresh_constructions_differ"] += 1
